@@ -32,8 +32,9 @@ def slug(s):
 
 
 def write_replay(pid, name, payload):
-    os.makedirs(os.path.join(VERIF, 'replay'), exist_ok=True)
-    p = os.path.join(VERIF, 'replay', f'{pid}-{slug(name)}.json')
+    rd = os.environ.get('VERIF_REPLAY_DIR') or os.path.join(VERIF, 'replay')
+    os.makedirs(rd, exist_ok=True)
+    p = os.path.join(rd, f'{pid}-{slug(name)}.json')
     with open(p, 'w') as fh:
         json.dump(payload, fh, indent=1)
     return p
@@ -194,8 +195,9 @@ def finish(pid, tier, evidence, problems, t0, level):
         'wall_s': round(time.time() - t0, 1),
         'violations': len(problems['failed']),
     }
-    os.makedirs(os.path.join(VERIF, 'evidence'), exist_ok=True)
-    with open(os.path.join(VERIF, 'evidence', pid + '.json'), 'w') as fh:
+    ed = os.environ.get('VERIF_EVIDENCE_DIR') or os.path.join(VERIF, 'evidence')
+    os.makedirs(ed, exist_ok=True)
+    with open(os.path.join(ed, pid + '.json'), 'w') as fh:
         json.dump(ev, fh, indent=1)
     return ev
 
